@@ -114,6 +114,11 @@ func NewReader(db *bolt.DB, sr *io.SectionReader, opts ...metadata.Option) (meta
 		if tocOffset >= 0 && tocSize <= 0 {
 			tocSize = sr.Size() - tocOffset - fSize
 		}
+		if tocOffset >= 0 && (tocSize < 0 || tocOffset > sr.Size() || tocSize > sr.Size()-tocOffset) {
+			// The footer is untrusted: never slice or allocate based on a TOC position outside of the blob.
+			errs = append(errs, fmt.Errorf("invalid TOC position (offset %d, size %d) in the footer of %d bytes blob", tocOffset, tocSize, sr.Size()))
+			continue
+		}
 		if tocOffset >= 0 && tocSize < int64(len(maybeTocBytes)) {
 			maybeTocBytes = maybeTocBytes[:tocSize]
 		}
